@@ -67,6 +67,13 @@ def wa (t : String) : Option WA :=
 
 def flat (t : String) : Option RStmt :=
   match t.splitOn ":" with
+  | "chain" :: v :: a :: o1 :: b1 :: rest =>
+    -- chain:<lv>:<a>:<op1>:<b1>:<op2>:<b2>…
+    let rec pairs : List String → Option (List (BOp × RA))
+      | [] => some []
+      | o :: b :: r => do let o ← bop o; let b ← ra b; let t ← pairs r; some ((o, b) :: t)
+      | _ => none
+    do let v ← lv v; let a ← ra a; let o1 ← bop o1; let b1 ← ra b1; let ops ← pairs rest; some (RStmt.chain v a o1 b1 ops)
   | ["wasg", s, a] => (wa a).map fun a => RStmt.asgW s a
   | ["wbin", s, o, a, b] => do let o ← bop o; let a ← wa a; let b ← wa b; some (RStmt.binW s o a b)
   | ["woas", s, o, a] => do let o ← bop o; let a ← wa a; some (RStmt.opasgW s o a)
